@@ -426,6 +426,56 @@ u_mutate(uint64_t idx, void *arg)
                   CORPUS[ci].name, vh_hex(CORPUS[ci].raw, CORPUS[ci].n > 24 ? 24 : CORPUS[ci].n));
 }
 
+/* ---- frames that fill the frame block to its last octet, and their twins with stray octets behind: on the TCP
+ * transport, from octet sources and from chunk sources that expose a transfer window (the frame then reaches the
+ * block in chunks, some of which fit only in part) ---- */
+static void
+u_fill(uint64_t idx, void *arg)
+{
+    (void)arg;
+    vh_rng rg;
+    vh_unit_rng(&rg, "fill", idx);
+    static const size_t wins[] = { 0, 2, 3, 7, 16, 40, 64 };
+    static const size_t blocks[] = { 96, 128, 129, 200 };
+    const int mem16 = (int)(idx & 1);
+    const size_t win = wins[(idx >> 1) % 7], bs = blocks[(idx / 14) % 4];
+    vh_arena_reset();
+    rp_next_window = win;
+    rp_setup(&H, 0, mem16, bs);
+    ncase_since_reset = 0;
+    const size_t cap = bs - sizeof(RPFrame);
+    static unsigned char raw[400], pl[400];
+    for (int round = 0; round < 6; round++) {
+        struct rframe f;
+        memset(&f, 0, sizeof f);
+        f.type = RT_WRITE_REQ;
+        f.options = mem16 ? ROPT_W16 : 0;
+        f.seq = (uint16_t)vh_rand(&rg);
+        f.addr = (uint32_t)vh_rand(&rg);
+        /* the longest payload the block can take (whole words), every second round one word less */
+        size_t ws = mem16 ? 2 : 1, words = (cap - 12) / ws - (size_t)(round & 1);
+        f.bsize = (uint32_t)words;
+        f.plen = words * ws;
+        for (size_t i = 0; i < f.plen; i++)
+            pl[i] = (unsigned char)vh_rand(&rg);
+        f.payload = pl;
+        size_t n = rp_encode_raw(&f, raw);
+        VH_CASE4(idx, round, win, bs);
+        judge(raw, n, 0, 0, "undamaged", "block-filling write request");
+        for (size_t e = 1; e <= 5; e++) {
+            for (size_t i = 0; i < e; i++)
+                raw[n + i] = (unsigned char)vh_rand(&rg);
+            VH_SUB(4, e);
+            judge(raw, n + e, 0, 1, n + e > cap ? "extended-beyond-block" : "extended", "block-filling write request");
+        }
+    }
+    if (win)
+        VH_COUNT("block-filling frames and oversized twins from a source with a transfer window");
+    else
+        VH_COUNT("block-filling frames and oversized twins from an octet source");
+    vh_sig(0x07f00000ull ^ idx);
+}
+
 /* ---- part two: option-bit combinations and arbitrary octet strings, both transports ---- */
 static void
 u_options(uint64_t idx, void *arg)
@@ -808,6 +858,9 @@ harness_run(void)
 {
     for (uint64_t i = 0; i < (vh_tier ? 4000u : 32u); i++)
         vh_unit("wire", i, u_wire, NULL);
+    for (uint64_t i = 0; i < 56; i++)
+        vh_unit("fill", i, u_fill, NULL);
+    vh_require("block-filling frames and oversized twins from a source with a transfer window");
     unsigned nparts = vh_tier ? 8 : 2;
     /* corpus size is bounded by 128; units beyond the corpus return at once */
     for (uint64_t i = 0; i < 128u * nparts; i++)
